@@ -59,5 +59,27 @@ for d,site in (('to_polyhedron','nodal_data=self.nodal_data'),('to_facets','noda
     opn({'kind':'shared-table-modified','deriv':d},
         f"femio/fem_data.py {d}: {site}",
         f"{d}() hands the parent's variable table object (and the coordinate array) to the child: remove_useless_nodes() (or a writer that expands time series, or an in-place rotation / translation) on one of the two objects rewrites the other's data, whose queries then raise or answer for the wrong mesh")
+# ---- entries repaired in /repo since they were triaged (fixed entries suppress nothing)
+def fixed_by(m):
+    k, e = m.get('kind'), m.get('effect')
+    if k in ('stale-lru', 'stale-derive') and e in ('remove_useless_nodes', 'rotation', 'translation'):
+        return '1693b7f'
+    if k == 'modifier-differs' and e in ('rotation', 'translation'):
+        return '1693b7f'
+    if k == 'slot-key' or (k == 'stale-slot' and e == 'make_elements_positive') or \
+            (k == 'modifier-differs' and e == 'make_elements_positive'):
+        return 'fc34815'
+    if k == 'writer-mutates':
+        return '2e12e9d'
+    if k == 'shared-table-modified':
+        return 'cef010e'
+    return None
+for ent in out:
+    if ent['status'] == 'open':
+        c = fixed_by(ent['match'])
+        if c:
+            ent['status'] = 'fixed'
+            ent['commit'] = c
+            ent['what'] = f"fixed: property=C19 {c} " + ent['what'][len('open: '):]
 open('/verif/known_findings.d/C19.json','w').write(json.dumps(out,indent=1)+'\n')
 print(len(out), sum(1 for e in out if e['status']=='open'))
